@@ -380,32 +380,51 @@ Definition set_rs_short (rs : bytes) : rs_outcome :=
    For the main loop that is the new current record; interp.getline (every getline form) saves
    p.fields before the read and restores it afterwards, so a record read into a variable leaves
    the current record's fields alone. *)
-Record fstate : Type := { fs_fields : Z; fs_true : Z; fs_have : bool }.
+Record fstate : Type := {
+  fs_fields : Z; fs_true : Z; fs_have : bool;
+  fs_mode : bool;     (* the CURRENT INPUTMODE is csv/tsv (setSpecial V_INPUTMODE changes it at any time) *)
+  fs_saved : bool;    (* p.savedInputMode: the mode when the current record was read (setLine) *)
+  fs_dflt : Z         (* number of fields p.line has under the default-mode split *)
+}.
 
+(* The stream's scanner -- and so its split function -- is fixed when the scanner is created
+   (newScanner): this model is about a stream opened in CSV/TSV mode, whose csvSplitter keeps
+   storing into p.fields after the program switches INPUTMODE back to "". *)
 Inductive fop : Type :=
-| ORecord (n : Z)        (* the main loop reads a record with n fields: fields stored, haveFields := false *)
+| ORecord (n d : Z)      (* the main loop reads a record with n CSV fields (d fields under the default split): fields stored, setLine *)
 | OGetlineVar (n : Z)    (* getline var / getline arr[i] reads a record with n fields: p.fields written, then restored *)
 | ONF                    (* NF (or any use of the fields): ensureFields *)
-| OField (i : Z).        (* $i with i >= 1 *)
+| OField (i : Z)         (* $i with i >= 1 *)
+| OSetMode (csv : bool). (* INPUTMODE = "csv" / "" in the middle of the stream *)
 
-Definition fs_init : fstate := {| fs_fields := 0; fs_true := 0; fs_have := false |}.
+Definition fs_init : fstate :=
+  {| fs_fields := 0; fs_true := 0; fs_have := false; fs_mode := true; fs_saved := true; fs_dflt := 0 |}.
 
+(* ensureFields: in (saved) CSV mode the splitter's fields are kept (reparseCSV is false for
+   records of the main loop); in (saved) default mode p.line is split by FS *)
 Definition f_ensure (s : fstate) : fstate :=
-  if fs_have s then s else {| fs_fields := fs_fields s; fs_true := fs_fields s; fs_have := true |}.
+  if fs_have s then s else
+  let f := if fs_saved s then fs_fields s else fs_dflt s in
+  {| fs_fields := f; fs_true := f; fs_have := true; fs_mode := fs_mode s; fs_saved := fs_saved s; fs_dflt := fs_dflt s |}.
 
 (* None = Go panics (index out of range in p.fieldsIsTrueStr[index-1]) *)
 Definition f_step (s : fstate) (o : fop) : option fstate :=
   match o with
-  | ORecord n => Some {| fs_fields := n; fs_true := fs_true s; fs_have := false |}
+  | ORecord n d => Some {| fs_fields := n; fs_true := fs_true s; fs_have := false;
+                           fs_mode := fs_mode s; fs_saved := fs_mode s; fs_dflt := d |}
   | OGetlineVar n =>
       let saved := fs_fields s in                                               (* fields := p.fields *)
-      let s1 := {| fs_fields := n; fs_true := fs_true s; fs_have := fs_have s |} in   (* the splitter's store *)
-      Some {| fs_fields := saved; fs_true := fs_true s1; fs_have := fs_have s1 |}     (* deferred p.fields = fields *)
+      let s1 := {| fs_fields := n; fs_true := fs_true s; fs_have := fs_have s;
+                   fs_mode := fs_mode s; fs_saved := fs_saved s; fs_dflt := fs_dflt s |} in   (* the splitter's store *)
+      Some {| fs_fields := saved; fs_true := fs_true s1; fs_have := fs_have s1;
+              fs_mode := fs_mode s1; fs_saved := fs_saved s1; fs_dflt := fs_dflt s1 |}        (* deferred p.fields = fields, whatever the current mode *)
   | ONF => Some (f_ensure s)
   | OField i =>
       let s' := f_ensure s in
       if fs_fields s' <? i then Some s'                    (* index > len(p.fields): "" *)
       else if i <=? fs_true s' then Some s' else None      (* p.fieldsIsTrueStr[index-1] *)
+  | OSetMode b => Some {| fs_fields := fs_fields s; fs_true := fs_true s; fs_have := fs_have s;
+                          fs_mode := b; fs_saved := fs_saved s; fs_dflt := fs_dflt s |}
   end.
 
 Fixpoint f_run (s : fstate) (ops : list fop) : option fstate :=
